@@ -4,7 +4,7 @@ CONSTANTS
   Steps = {}
   MaxEv = 0
 INVARIANTS ExpiryExact ReadIdleOnTime PingOnTime RespHdrOnTime IdleOnTime ShutOnTime WriteOnTime
-  HealthCheckAlive NoPingWhenDisabled AtMostOnePingInFlight IdleOnlyWhenNoStreams GoAwayBounded ClosedIsQuiet
+  HealthCheckAlive NoPingWhenDisabled AtMostOnePingInFlight IdleOnlyWhenNoStreams GoAwayBounded ClosedIsQuiet NoLateHealthCheck
 CONSTRAINT Mark
 POSTCONDITION AllConsumed
 CHECK_DEADLOCK FALSE
